@@ -223,6 +223,21 @@ func (t *convTrack) visit(v ssa.Value, role, depth int) {
 						continue // other Value methods (IsUndefined, object(), isCallable ...) do not convert
 					}
 					t.visit(callee.Params[i], role, depth+1)
+					// an accessor helper of the module: it hands back the element of the list this track is about
+					// (as its first result) - what the caller does with the result is done to the argument
+					if role == roleList && callee.Signature.Recv() == nil && returnsListElement(callee, i, t.n) {
+						if val := x.Value(); val != nil {
+							if callee.Signature.Results().Len() == 1 {
+								t.visit(val, roleArg, depth)
+							} else {
+								for _, r2 := range *val.Referrers() {
+									if ex, ok := r2.(*ssa.Extract); ok && ex.Index == 0 {
+										t.visit(ex, roleArg, depth)
+									}
+								}
+							}
+						}
+					}
 				}
 			}
 		}
@@ -544,4 +559,54 @@ func primHintOf(callee *ssa.Function, args []ssa.Value, depth int) string {
 		}
 	}
 	return ""
+}
+
+// returnsListElement: some return of fn yields, as its first result, element n of its list parameter pi (read by index or
+// through valueOfArrayIndex / getValueOfArrayIndex), possibly through a local.
+func returnsListElement(fn *ssa.Function, pi, n int) bool {
+	if pi >= len(fn.Params) || len(fn.Blocks) == 0 || fn.Signature.Results().Len() == 0 || !typeIs(fn.Signature.Results().At(0).Type(), ottoPath, "Value") {
+		return false
+	}
+	list := fn.Params[pi]
+	var isElem func(v ssa.Value, d int) bool
+	isElem = func(v ssa.Value, d int) bool {
+		if d > 5 || v == nil {
+			return false
+		}
+		switch x := v.(type) {
+		case *ssa.Call:
+			cl := x.Call.StaticCallee()
+			if cl != nil && (cl.Name() == "valueOfArrayIndex" || cl.Name() == "getValueOfArrayIndex") && len(x.Call.Args) == 2 && x.Call.Args[0] == ssa.Value(list) {
+				k, ok := constInt(x.Call.Args[1])
+				return ok && int(k) == n
+			}
+		case *ssa.Extract:
+			return x.Index == 0 && isElem(x.Tuple, d+1)
+		case *ssa.Phi:
+			for _, e := range x.Edges {
+				if isElem(e, d+1) {
+					return true
+				}
+			}
+		case *ssa.UnOp:
+			if ia, ok := x.X.(*ssa.IndexAddr); ok && ia.X == ssa.Value(list) {
+				k, ok := constInt(ia.Index)
+				return ok && int(k) == n
+			}
+			if al, ok := x.X.(*ssa.Alloc); ok {
+				for _, ref := range *al.Referrers() {
+					if st, ok := ref.(*ssa.Store); ok && st.Addr == ssa.Value(al) && isElem(st.Val, d+1) {
+						return true
+					}
+				}
+			}
+		}
+		return false
+	}
+	for _, b := range fn.Blocks {
+		if ret, ok := b.Instrs[len(b.Instrs)-1].(*ssa.Return); ok && len(ret.Results) > 0 && isElem(ret.Results[0], 0) {
+			return true
+		}
+	}
+	return false
 }
